@@ -19,11 +19,10 @@ def nth(G, qual, k):
 
 
 def items(G):
-    from harness.gen_parts.mnemonic import words_of, wordlist_call, text_chunks
+    from harness.gen_parts.mnemonic import words_of, wordlist_call, word_nats
 
     yield G.strs("Slip39Words", "slip39Words", lambda: words_of(G, S, "SLIP39"))
-    for it in text_chunks(G, "Slip39Text", "slip39Text", S, "SLIP39", 4):
-        yield it
+    yield G.nats("Slip39Words", "slip39WordNats", lambda: word_nats(G, S, "SLIP39"))
     yield G.nat("Shamir", "slip39Count", lambda: (lambda t: (t[1], t[2]))(wordlist_call(G, S, "SLIP39")))
 
     # rs1024_polymod
